@@ -40,8 +40,12 @@ Proof. induction a; cbn; auto. now rewrite IHa. Qed.
 
 Lemma at_pos_slice bs p x : at_pos bs p x -> slice bs p (zlen x) = x.
 Proof.
-  intros (pre & post & E & L). unfold slice. subst p. rewrite !to_nat_zlen, E, skipn_len_app, firstn_len_app.
-  rewrite Z.sub_diag. cbn. apply app_nil_r.
+  intros (pre & post & E & L). unfold slice. subst p.
+  destruct (Z.leb_spec (zlen bs) (zlen pre)) as [Hle|Hlt].
+  - rewrite E, !zlen_app in Hle. pose proof (zlen_nonneg post). pose proof (zlen_nonneg x).
+    assert (Hx : zlen x = 0) by lia. destruct x; [reflexivity|]. rewrite zlen_cons in Hx. pose proof (zlen_nonneg x). lia.
+  - rewrite !to_nat_zlen, E, skipn_len_app, firstn_len_app.
+    rewrite Z.sub_diag. cbn. apply app_nil_r.
 Qed.
 Lemma at_pos_rd bs p z : at_pos bs p (word z) -> rd bs p = z mod W256.
 Proof.
@@ -91,6 +95,10 @@ Inductive Forall3 {A B C} (R : A -> B -> C -> Prop) : list A -> list B -> list C
 | F3nil : Forall3 R [] [] []
 | F3cons a b c la lb lc : R a b c -> Forall3 R la lb lc -> Forall3 R (a :: la) (b :: lb) (c :: lc).
 
+Section Generic.
+Variable padd : Z -> Z -> Z. (*section*)
+Hypothesis padd_small : forall a b, 0 <= a -> 0 <= b -> a + b < W256 -> padd a b = a + b. (*section*)
+
 Definition comp_ok (d : bool * Z * dec_t) (p : bool * list Z) (v : val) : Prop :=
   fst (fst d) = fst p /\
   snd (fst d) = (if fst p then 32 else zlen (snd p)) /\
@@ -99,24 +107,29 @@ Definition comp_ok (d : bool * Z * dec_t) (p : bool * list Z) (v : val) : Prop :
 Lemma run_seq_ok all bs loc :
   zlen bs < W256 -> at_pos bs loc (enc_seq all) ->
   forall ds parts vs, Forall3 comp_ok ds parts vs ->
-  forall p1, all = p1 ++ parts -> run_seq ds bs loc (head_len p1) = Some vs.
+  forall p1, all = p1 ++ parts -> run_seq_g padd ds bs loc (head_len p1) = Some vs.
 Proof.
   intros Hsmall Hat ds parts vs HF. induction HF as [|d p v ds parts vs Hok HF IH]; intros p1 Hall.
   - reflexivity.
   - destruct d as [[dyn hs] dc]. destruct p as [d' e]. destruct Hok as (Hd & Hhs & Hdc). cbn [fst snd] in *. subst d'.
     pose proof (at_pos_len _ _ _ Hat) as [Hloc0 Hloclen].
-    cbn [run_seq]. destruct dyn.
+    cbn [run_seq_g]. destruct dyn.
     + destruct (comp_pos_dyn all p1 e parts Hall) as [A1 A2].
       pose proof (at_pos_trans _ _ _ _ _ Hat A1) as B1.
       pose proof (at_pos_trans _ _ _ _ _ Hat A2) as B2.
       pose proof (at_pos_len _ _ _ A2) as [_ Hoff].
       pose proof (head_len_nonneg all). pose proof (zlen_nonneg (tails p1)). pose proof (zlen_nonneg e).
+      pose proof (head_len_nonneg p1). pose proof (at_pos_len _ _ _ B1) as [_ HB1]. rewrite zlen_word in HB1.
+      rewrite (padd_small loc (head_len p1)) by lia.
       rewrite (at_pos_rd _ _ _ B1). rewrite Z.mod_small by lia.
+      rewrite padd_small by lia.
       rewrite (Hdc bs _ Hsmall B2).
       replace (head_len p1 + hs) with (head_len (p1 ++ [(true, e)])) by (rewrite head_len_app; cbn [head_len]; lia).
       rewrite (IH (p1 ++ [(true, e)])). reflexivity. rewrite Hall, <- app_assoc. reflexivity.
     + pose proof (comp_pos_static all p1 e parts Hall) as A1.
       pose proof (at_pos_trans _ _ _ _ _ Hat A1) as B1.
+      pose proof (head_len_nonneg p1). pose proof (at_pos_len _ _ _ B1) as [_ HB1]. pose proof (zlen_nonneg e).
+      rewrite (padd_small loc (head_len p1)) by lia.
       rewrite (Hdc bs _ Hsmall B1).
       replace (head_len p1 + hs) with (head_len (p1 ++ [(false, e)])) by (rewrite head_len_app; cbn [head_len]; lia).
       rewrite (IH (p1 ++ [(false, e)])). reflexivity. rewrite Hall, <- app_assoc. reflexivity.
@@ -124,7 +137,7 @@ Qed.
 
 Corollary run_seq_enc_seq ds parts vs bs loc :
   zlen bs < W256 -> at_pos bs loc (enc_seq parts) -> Forall3 comp_ok ds parts vs ->
-  run_seq ds bs loc 0 = Some vs.
+  run_seq_g padd ds bs loc 0 = Some vs.
 Proof. intros Hs Ha HF. exact (run_seq_ok parts bs loc Hs Ha ds parts vs HF [] eq_refl). Qed.
 
 (* ---------- scalar facts ---------- *)
@@ -148,7 +161,7 @@ Proof. unfold zeros. induction (Z.to_nat k); cbn; auto. Qed.
 
 Definition dec_ok (t : ty) : Prop :=
   forall v bs loc, wf_ty t = true -> in_type t v = true -> zlen bs < W256 ->
-                   at_pos bs loc (enc t v) -> dec_at t bs loc = Some v.
+                   at_pos bs loc (enc t v) -> dec_at_g padd t bs loc = Some v.
 
 Lemma dec_unsigned t :
   (exists b, t = TUInt b) \/ t = TBool \/ t = TAddress \/ (exists m, t = TFlag m) -> dec_ok t.
@@ -166,7 +179,7 @@ Proof.
       eexists; (split; [reflexivity|]); cbn [int_lo] in Hin; lia. }
   assert (Henc : enc t (VInt z) = word z) by (destruct Hk as [[b ->]|[->|[->|[m ->]]]]; reflexivity).
   rewrite Henc in Hat.
-  assert (Hdec : dec_at t bs loc = (let w := rd bs loc in if w <? int_hi t then Some (VInt w) else None))
+  assert (Hdec : dec_at_g padd t bs loc = (let w := rd bs loc in if w <? int_hi t then Some (VInt w) else None))
     by (destruct Hk as [[b ->]|[->|[->|[m ->]]]]; reflexivity).
   rewrite Hdec. cbn zeta. rewrite (at_pos_rd _ _ _ Hat), Z.mod_small by lia.
   destruct (Z.ltb_spec z (int_hi t)); [reflexivity | lia].
@@ -185,7 +198,7 @@ Proof.
       eexists; (split; [reflexivity|]); lia. }
   assert (Henc : enc t (VInt z) = word z) by (destruct Hk as [[b ->]| ->]; reflexivity).
   rewrite Henc in Hat.
-  assert (Hdec : dec_at t bs loc = (let s := to_signed256 (rd bs loc) in
+  assert (Hdec : dec_at_g padd t bs loc = (let s := to_signed256 (rd bs loc) in
              if (int_lo t <=? s) && (s <? int_hi t) then Some (VInt s) else None))
     by (destruct Hk as [[b ->]| ->]; reflexivity).
   rewrite Hdec. cbn zeta. rewrite (at_pos_rd _ _ _ Hat), to_signed_mod by lia.
@@ -194,7 +207,7 @@ Qed.
 
 Lemma arr_forall3 t vs :
   dec_ok t -> wf_ty t = true -> Forall (fun v => in_type t v = true) vs ->
-  Forall3 comp_ok (repeat (is_dynamic t, emb_static t, dec_at t) (length vs))
+  Forall3 comp_ok (repeat (is_dynamic t, emb_static t, dec_at_g padd t) (length vs))
           (map (fun x => (is_dynamic t, enc t x)) vs) vs.
 Proof.
   intros IH Hwf HF. induction HF as [|v vs Hv HF IHF]; cbn [length repeat map]; constructor; auto.
@@ -205,7 +218,7 @@ Qed.
 
 Lemma tuple_forall3 ts : Forall dec_ok ts -> forall vs,
   forallb wf_ty ts = true -> zip_all (map in_type ts) vs = true ->
-  Forall3 comp_ok (map (fun t' => (is_dynamic t', emb_static t', dec_at t')) ts)
+  Forall3 comp_ok (map (fun t' => (is_dynamic t', emb_static t', dec_at_g padd t')) ts)
           (zip_apply (map (fun t' => (is_dynamic t', enc t')) ts) vs) vs.
 Proof.
   induction 1 as [|t ts IHt HF IH]; intros vs Hwf Hin; destruct vs as [|v vs]; cbn [map zip_all zip_apply forallb] in *;
@@ -226,14 +239,15 @@ Proof.
       apply andb_prop in Hin as [Hl _]; eexists; split; try reflexivity; lia. }
   assert (Henc : enc t (VBytes bs0) = word (zlen bs0) ++ bs0 ++ zeros (pad32 (zlen bs0)))
     by (destruct Hk as [-> | ->]; reflexivity).
-  assert (Hdec : dec_at t bs loc = (let n := rd bs loc in
-             if n <=? b then Some (VBytes (slice bs (loc + 32) n)) else None))
+  assert (Hdec : dec_at_g padd t bs loc = (let n := rd bs loc in
+             if n <=? b then Some (VBytes (slice bs (padd loc 32) n)) else None))
     by (destruct Hk as [-> | ->]; reflexivity).
   rewrite Henc in Hat. rewrite Hdec. cbn zeta.
   pose proof (at_pos_len _ _ _ Hat) as [H0 Hlen]. rewrite !zlen_app, zlen_word in Hlen.
   pose proof (zlen_nonneg bs0). pose proof (zlen_nonneg (zeros (pad32 (zlen bs0)))).
   rewrite (at_pos_rd _ _ _ (at_pos_app_l _ _ _ _ Hat)), Z.mod_small by lia.
   destruct (Z.leb_spec (zlen bs0) b); [|lia].
+  rewrite padd_small by lia.
   pose proof (at_pos_app_r _ _ _ _ Hat) as HR. rewrite zlen_word in HR.
   rewrite (at_pos_slice _ _ _ (at_pos_app_l _ _ _ _ HR)). reflexivity.
 Qed.
@@ -248,7 +262,7 @@ Proof.
   - (* bytesM *)
     intros v bs loc Hwf Hin Hsmall Hat.
     destruct v as [|bs0|]; try (cbn in Hin; discriminate).
-    pose proof (in_type_bytesM _ _ Hin) as Hl. cbn [enc dec_at wf_ty] in *.
+    pose proof (in_type_bytesM _ _ Hin) as Hl. cbn [enc dec_at_g wf_ty] in *.
     pose proof (at_pos_slice _ _ _ Hat) as Hs. rewrite zlen_app, zlen_zeros in Hs.
     replace (zlen bs0 + Z.max 0 (32 - zlen bs0)) with 32 in Hs by lia.
     rewrite Hs. rewrite <- Hl, to_nat_zlen, skipn_len_app, firstn_len_app, forallb_zeros. reflexivity.
@@ -259,28 +273,41 @@ Proof.
   - (* sarr *)
     intros v bs loc Hwf Hin Hsmall Hat.
     destruct v as [| |vs]; try (cbn in Hin; discriminate).
-    cbn [in_type wf_ty enc dec_at] in *. apply andb_prop in Hin as [Hn Hall]. apply andb_prop in Hwf as [Hn1 Hwf].
+    cbn [in_type wf_ty enc dec_at_g] in *. apply andb_prop in Hin as [Hn Hall]. apply andb_prop in Hwf as [Hn1 Hwf].
     assert (Hn' : Z.to_nat n = length vs) by (rewrite <- to_nat_zlen; f_equal; lia). rewrite Hn'.
     rewrite (run_seq_enc_seq _ _ vs bs loc Hsmall Hat). reflexivity.
     apply arr_forall3; auto. apply Forall_forall. rewrite forallb_forall in Hall. auto.
   - (* darr *)
     intros v bs loc Hwf Hin Hsmall Hat.
     destruct v as [| |vs]; try (cbn in Hin; discriminate).
-    cbn [in_type wf_ty enc dec_at] in *. apply andb_prop in Hin as [Hn Hall]. apply andb_prop in Hwf as [Hn1 Hwf].
+    cbn [in_type wf_ty enc dec_at_g] in *. apply andb_prop in Hin as [Hn Hall]. apply andb_prop in Hwf as [Hn1 Hwf].
     pose proof (at_pos_len _ _ _ Hat) as [H0 Hlen]. rewrite zlen_app, zlen_word in Hlen.
     pose proof (zlen_nonneg vs). pose proof (zlen_nonneg (enc_seq (map (fun x => (is_dynamic t, enc t x)) vs))).
     rewrite (at_pos_rd _ _ _ (at_pos_app_l _ _ _ _ Hat)), Z.mod_small by lia.
     destruct (Z.leb_spec (zlen vs) b); [|lia].
-    rewrite to_nat_zlen.
+    rewrite to_nat_zlen. rewrite padd_small by lia.
     pose proof (at_pos_app_r _ _ _ _ Hat) as HR. rewrite zlen_word in HR.
     rewrite (run_seq_enc_seq _ _ vs bs (loc + 32) Hsmall HR). reflexivity.
     apply arr_forall3; auto. apply Forall_forall. rewrite forallb_forall in Hall. auto.
   - (* tuple *)
     intros v bs loc Hwf Hin Hsmall Hat.
     destruct v as [| |vs]; try (cbn in Hin; discriminate).
-    cbn [in_type wf_ty enc dec_at] in *.
+    cbn [in_type wf_ty enc dec_at_g] in *.
     rewrite (run_seq_enc_seq _ _ vs bs loc Hsmall Hat). reflexivity.
     apply tuple_forall3; auto.
+Qed.
+
+End Generic.
+
+(* instances: unbounded positions, and EVM (wrapping) pointer arithmetic *)
+Theorem dec_at_enc_spec : forall t v bs loc, wf_ty t = true -> in_type t v = true -> zlen bs < W256 ->
+  at_pos bs loc (enc t v) -> dec_at t bs loc = Some v.
+Proof. intros t. apply (dec_at_enc Z.add). intros. reflexivity. Qed.
+
+Theorem dec_follow_enc : forall t v bs loc, wf_ty t = true -> in_type t v = true -> zlen bs < W256 ->
+  at_pos bs loc (enc t v) -> dec_follow t bs loc = Some v.
+Proof.
+  intros t. apply (dec_at_enc wadd). intros a b Ha Hb Hs. unfold wadd. apply Z.mod_small. lia.
 Qed.
 
 (* ---------- strict decoder ---------- *)
@@ -296,7 +323,7 @@ Theorem enc_dec_roundtrip : forall t v,
   wf_ty t = true -> in_type t v = true -> zlen (enc t v) < W256 -> dec t (enc t v) = Some v.
 Proof.
   intros t v Hwf Hin Hs. unfold dec.
-  rewrite (dec_at_enc t v (enc t v) 0 Hwf Hin Hs (at_pos_refl _)), Hin, list_eqb_refl. reflexivity.
+  rewrite (dec_at_enc_spec t v (enc t v) 0 Hwf Hin Hs (at_pos_refl _)), Hin, list_eqb_refl. reflexivity.
 Qed.
 
 Corollary enc_dec_roundtrip_bound : forall t v,
